@@ -8,6 +8,8 @@ def run(ctx: Ctx) -> None:
     t19_dispatch.run_copies(ctx)
     t19_dispatch.run_pickle(ctx)
     t19_dispatch.run_collate(ctx)
+    t19_dispatch.run_mixed_axes(ctx)
+    ctx.floor("T19.mixed-axes", 6)
     ctx.floor("T19.collate", 12)
     ctx.floor("T19.pickle", 8)
     ctx.floor("T19.copy", 8)
@@ -44,6 +46,8 @@ def mutants(prog):
         ("flow axes of cat: list form only", DF, "FlowFields._torch_function_axes", "if isinstance(args[0], (tuple, list)):", "if isinstance(args[0], list):", "T19.dispatch"),
         ("image batch: result that is already a batch keeps its stale grids", DI, "ImageBatch._torch_function_result", "if isinstance(data, cls):\n            data._grid = grid\n        else:\n            data = cls(data, grid)", "if not isinstance(data, cls):\n            data = cls(data, grid)", "T19.dispatch"),
         ("flow fields: result that is already a flow keeps its stale axes", DF, "FlowFields._torch_function_result", "data._axes = axes", "pass", "T19.dispatch"),
+        ("single flow field: axes guard compares the first operand with itself", DF, "FlowField._torch_function_axes", "for ax in axes[1:]", "for ax in axes[:1]", "T19.mixed-axes"),
+        ("flow fields: axes guard dropped", DF, "FlowFields._torch_function_axes", "if any((ax != axes[0] for ax in axes[1:])):", "if False:", "T19.mixed-axes"),
     ]
     for name, mod, fn, old, new, expect in specs:
         ov = source_sub(prog, mod, fn, old, new)
